@@ -33,6 +33,8 @@ def sub(args, boundscheck, timeout=1500):
     env["NUMBA_BOUNDSCHECK"] = "1" if boundscheck else "0"
     env["NUMBA_CACHE_DIR"] = os.path.join(tlc.CACHE, "numba-bc" if boundscheck else "numba")
     env["PYTHONPATH"] = os.path.join(HERE, "harness") + ":" + os.path.join(HERE, "vendor")
+    if os.environ.get("VF_REPO"):
+        env["PYTHONPATH"] = os.environ["VF_REPO"] + ":" + env["PYTHONPATH"]
     p = subprocess.run([sys.executable, "-m", "vf.kernel_runner"] + [str(a) for a in args], env=env, cwd=HERE, timeout=timeout,
                        stdout=subprocess.PIPE, stderr=subprocess.STDOUT, text=True)
     return p
@@ -43,6 +45,8 @@ def sub_start(args, boundscheck):
     env["NUMBA_BOUNDSCHECK"] = "1" if boundscheck else "0"
     env["NUMBA_CACHE_DIR"] = os.path.join(tlc.CACHE, "numba-bc" if boundscheck else "numba")
     env["PYTHONPATH"] = os.path.join(HERE, "harness") + ":" + os.path.join(HERE, "vendor")
+    if os.environ.get("VF_REPO"):
+        env["PYTHONPATH"] = os.environ["VF_REPO"] + ":" + env["PYTHONPATH"]
     return subprocess.Popen([sys.executable, "-m", "vf.kernel_runner"] + [str(a) for a in args], env=env, cwd=HERE,
                             stdout=subprocess.PIPE, stderr=subprocess.STDOUT, text=True)
 
